@@ -144,6 +144,42 @@ func stressRequests(rng *rand.Rand, nRandom int) []*Request {
 	mk("c16wkt", []*Message{M("W", F("at", 1, "", Msg(Timestamp)), F("d", 2, "", Msg("google.protobuf.Duration")), F("any", 3, "", Msg("google.protobuf.Any")),
 		F("s", 4, "", Msg("google.protobuf.Struct")), F("e", 5, "", Msg("google.protobuf.Empty")), F("w", 6, "", Msg("google.protobuf.StringValue")),
 		F("fm", 7, "", Msg("google.protobuf.FieldMask")), F("vals", 8, "", Msg("google.protobuf.Value"), Rep()), F("by", 9, "", Msg(Timestamp), MapOf("string")))}, "W", nil)
+	// annotation-driven recursions: flatten cycles and chains, flattened-oneof cycles, unwrap cycles
+	mk("c16flatcycle", []*Message{
+		M("Folder", F("name", 1, "string"), F("owner", 2, "", Msg(p("c16flatcycle", "Owner")), Flatten(true))),
+		M("Owner", F("login", 1, "string"), F("home", 2, "", Msg(p("c16flatcycle", "Folder")), Flatten(true)))}, "Folder", nil)
+	mk("c16flatcycle3", []*Message{
+		M("A", F("a", 1, "string"), F("b", 2, "", Msg(p("c16flatcycle3", "B")), Flatten(true), FlattenPrefix("b_"))),
+		M("B", F("x", 1, "string"), F("c", 2, "", Msg(p("c16flatcycle3", "C")), Flatten(true), FlattenPrefix("c_"))),
+		M("C", F("y", 1, "string"), F("a", 2, "", Msg(p("c16flatcycle3", "A")), Flatten(true), FlattenPrefix("a_")))}, "A", nil)
+	mk("c16flatchain", []*Message{
+		M("L0", F("v0", 1, "string"), F("n", 2, "", Msg(p("c16flatchain", "L1")), Flatten(true))),
+		M("L1", F("v1", 1, "string"), F("n", 2, "", Msg(p("c16flatchain", "L2")), Flatten(true))),
+		M("L2", F("v2", 1, "string"), F("n", 2, "", Msg(p("c16flatchain", "L3")), Flatten(true))),
+		M("L3", F("v3", 1, "string"))}, "L0", nil)
+	mk("c16flatself", []*Message{M("SelfFlat", F("v", 1, "string"), F("again", 2, "", Msg(p("c16flatself", "SelfFlat")), Flatten(true), FlattenPrefix("again_")))}, "SelfFlat", nil)
+	mk("c16oneofcycle", []*Message{
+		M("Node", F("id", 1, "string"), F("leaf", 2, "", Msg(p("c16oneofcycle", "Leaf")), InOneof("kind")), F("branch", 3, "", Msg(p("c16oneofcycle", "Branch")), InOneof("kind"))).WithOneofs(&Oneof{Name: "kind", HasConfig: true, Discriminator: "type", Flatten: true}),
+		M("Leaf", F("v", 1, "string")), M("Branch", F("left", 1, "", Msg(p("c16oneofcycle", "Node"))), F("right", 2, "", Msg(p("c16oneofcycle", "Node"))))}, "Node", nil)
+	mk("c16unwrapcycle", []*Message{
+		M("Tree", F("kids", 1, "", Msg(p("c16unwrapcycle", "Tree")), Rep(), Unwrap())),
+		M("Forest", F("by_name", 1, "", Msg(p("c16unwrapcycle", "Tree")), MapOf("string")), F("n", 2, "int32"))}, "Forest", nil)
+	// the same short message name in several packages / scopes, all reachable from one service
+	{
+		id := "c16names"
+		mkFile := func(pkgSuffix string) *File {
+			pkg := "acme." + pkgSuffix + ".v1"
+			return &File{Path: id + "/" + pkgSuffix + ".proto", Package: pkg, GoPackage: "verifgen/" + id + "/" + pkgSuffix + ";" + pkgSuffix, Generate: true,
+				Messages: []*Message{M("Status", F("code_"+pkgSuffix, 1, "int32")).WithNested(M("Detail", F("d", 1, "string")))}}
+		}
+		orders, billing, shipping := mkFile("orders"), mkFile("billing"), mkFile("shipping")
+		api := &File{Path: id + "/api.proto", Package: "acme.api.v1", GoPackage: "verifgen/" + id + "/api;api", Generate: true,
+			Imports: []string{orders.Path, billing.Path, shipping.Path},
+			Messages: []*Message{M("Req", F("id", 1, "string")), M("Status", F("o", 1, "", Msg("acme.orders.v1.Status")), F("b", 2, "", Msg("acme.billing.v1.Status")), F("s", 3, "", Msg("acme.shipping.v1.Status")),
+				F("od", 4, "", Msg("acme.orders.v1.Status.Detail")), F("bd", 5, "", Msg("acme.billing.v1.Status.Detail")))},
+			Services: []*Service{Svc("Api", "/a", RPC("Get", "acme.api.v1.Req", "acme.api.v1.Status", "POST", "/g"))}}
+		out = append(out, &Request{ID: id, Files: []*File{orders, billing, shipping, api}})
+	}
 	// seeded random graphs
 	for i := 0; i < nRandom; i++ {
 		id := fmt.Sprintf("c16rand%d", i)
@@ -251,7 +287,7 @@ func CheckC16(run *Run) {
 	var crs []*CaseResult
 	for i, r := range reqs {
 		if builts[i] == nil {
-			run.Fatal("descriptor build failed for %s", r.ID)
+			run.Fatal("descriptor build failed for %s: %s", r.ID, strings.Join(results[i].detail, "; "))
 		}
 		g, roots, n := graphOf(r, builts[i])
 		rs := make([]string, len(roots))
